@@ -16,14 +16,21 @@ import (
 	"encoding/json"
 	"errors"
 	"fmt"
+	"io"
 	"os"
 	"os/exec"
+	"path/filepath"
 	"regexp"
+	"runtime"
+	"runtime/debug"
 	"sort"
 	"strings"
+	"sync"
+	"sync/atomic"
 	"syscall"
 	"time"
 
+	"github.com/johnkerl/miller/v6/pkg/mlrval"
 	"github.com/johnkerl/miller/v6/pkg/verifrt"
 
 	"verif/harness/vf"
@@ -37,6 +44,8 @@ func init() {
 			"funcs":   funcsWorker,
 			"dsl":     dslWorker,
 			"ladders": laddersWorker,
+			"seq":     seqWorker,
+			"verbs":   verbsWorker,
 		}})
 }
 
@@ -44,12 +53,14 @@ func init() {
 
 // mcase is one Miller invocation: `mlr args...` with stdin.
 type mcase struct {
-	Fam   string   `json:"fam"`   // family: reader, trunc, mut, func, stmt, dsl, chunk, ladder
-	Cfg   string   `json:"cfg"`   // configuration label (format/variant, function name, ladder shape)
-	Size  int      `json:"size"`  // size of the case (symbols / tuple weight / depth)
-	Desc  string   `json:"desc"`  // canonical short description of the varying part
-	Args  []string `json:"args"`  // mlr arguments (without argv[0])
-	Stdin string   `json:"stdin"` // bytes on standard input
+	Fam   string   `json:"fam"`             // family: reader, trunc, mut, func, stmt, dsl, chunk, ladder
+	Cfg   string   `json:"cfg"`             // configuration label (format/variant, function name, ladder shape)
+	Size  int      `json:"size"`            // size of the case (symbols / tuple weight / depth)
+	Desc  string   `json:"desc"`            // canonical short description of the varying part
+	Args  []string `json:"args"`            // mlr arguments (without argv[0])
+	Stdin string   `json:"stdin"`           // bytes on standard input
+	Tuple []string `json:"tuple,omitempty"` // func/stmt: witness names, for the poison rule
+	Split int      `json:"split,omitempty"` // > 0: stdin arrives in two reads, the first of this many bytes
 	// not serialised
 	outCap int64
 	regen  bool // ladder: the label carries (cfg,size) only; the orchestrator regenerates the text
@@ -58,7 +69,7 @@ type mcase struct {
 // label is what the pool shows when the worker dies in this case.
 func (m *mcase) label() string {
 	if m.regen {
-		b, _ := json.Marshal(&mcase{Fam: m.Fam, Cfg: m.Cfg, Size: m.Size, Desc: m.Desc})
+		b, _ := json.Marshal(&mcase{Fam: m.Fam, Cfg: m.Cfg, Size: m.Size, Desc: m.Desc, Args: []string{}})
 		return string(b)
 	}
 	b, _ := json.Marshal(m)
@@ -74,6 +85,10 @@ func (m *mcase) shell() string {
 	var sb strings.Builder
 	if len(m.Stdin) > 400 {
 		fmt.Fprintf(&sb, "(%d bytes on stdin, see desc) | ", len(m.Stdin))
+	} else if m.Split > 0 && m.Split < len(m.Stdin) {
+		a, b := &mcase{Stdin: m.Stdin[:m.Split]}, &mcase{Stdin: m.Stdin[m.Split:]}
+		pa, pb := a.shell(), b.shell()
+		sb.WriteString("(" + strings.TrimSuffix(pa, " | mlr") + "; sleep 0.3; " + strings.TrimSuffix(pb, " | mlr") + ") | ")
 	} else if m.Stdin != "" {
 		sb.WriteString("printf '")
 		for i := 0; i < len(m.Stdin); i++ {
@@ -202,30 +217,195 @@ func (c *capWriter) Write(p []byte) (int, error) {
 }
 func (c *capWriter) Close() error { return nil }
 
+// chunkReader delivers its parts one per Read call (never merging two parts).
+type chunkReader struct{ parts [][]byte }
+
+func (c *chunkReader) Read(p []byte) (int, error) {
+	for len(c.parts) > 0 && len(c.parts[0]) == 0 {
+		c.parts = c.parts[1:]
+	}
+	if len(c.parts) == 0 {
+		return 0, io.EOF
+	}
+	n := copy(p, c.parts[0])
+	c.parts[0] = c.parts[0][n:]
+	return n, nil
+}
+func (c *chunkReader) Close() error { return nil }
+
 // runner holds per-worker state.
 type runner struct {
 	w        *vf.Worker
 	confirms map[string]int // plain-binary confirmations spent per violation group
+	seen     map[string]int // violations seen per group
 	only     bool
+
+	// watchdog state (written by the case goroutine, read by the watchdog)
+	cur       atomic.Pointer[mcase]
+	curCPU    atomic.Int64 // process cpu at case start (ns)
+	curWall   atomic.Int64 // wall clock at case start (unix ns)
+	spinLimit time.Duration
+
+	nSide      int
+	nRuns      int
+	nLeaked    int
+	poison     *poisonDB
+	poisonStat string
+	poisonTick int
+	warned     map[string]bool
 }
 
-func newRunner(w *vf.Worker) *runner {
+// newRunner prepares a worker process. asGiB caps the address space: a runaway
+// allocation must end this worker long before it hurts the machine (Go
+// reserves ~1-2 GiB of address space up front). spin is the CPU time after
+// which an unfinished case of this family is declared a hang (>= 10^4 x the
+// normal duration of a case; 0 = no in-worker detection, the pool's stall
+// detector applies).
+func newRunner(w *vf.Worker, asGiB uint64, spin time.Duration) *runner {
 	verifrt.TrapExits(true)
 	vf.CaptureStderr()
-	// A runaway allocation must end this worker long before it hurts the machine.
 	var lim syscall.Rlimit
-	lim.Cur, lim.Max = 10<<30, 10<<30
-	syscall.Setrlimit(syscall.RLIMIT_AS, &lim)
-	return &runner{w: w, confirms: map[string]int{}, only: w.Only >= 0}
+	if syscall.Getrlimit(syscall.RLIMIT_AS, &lim) == nil {
+		lim.Cur = asGiB << 30 // soft limit only: the plain-binary confirmation sets its own
+		syscall.Setrlimit(syscall.RLIMIT_AS, &lim)
+	}
+	x := &runner{w: w, confirms: map[string]int{}, seen: map[string]int{}, only: w.Only >= 0, spinLimit: spin, warned: map[string]bool{}}
+	if spin > 0 {
+		// enumeration families: cases are tiny, so runaway recursion should die after 64 MiB of stack (milliseconds)
+		// rather than after the default 1 GiB (seconds); the plain binary then shows the real thing
+		debug.SetMaxStack(64 << 20)
+		go x.watchdog()
+	}
+	return x
+}
+
+func cpuNow() time.Duration {
+	var ru syscall.Rusage
+	syscall.Getrusage(syscall.RUSAGE_SELF, &ru)
+	return time.Duration(ru.Utime.Nano() + ru.Stime.Nano())
+}
+
+// watchdog: a case of an enumeration family normally takes well under a
+// millisecond. One that has burnt spinLimit of CPU time without finishing
+// (spin), or has sat for 100 s of wall time using no CPU at all (deadlock), is
+// reported as a hang: the violation is recorded, the plain binary is asked
+// for a second opinion, and the worker leaves (the stuck goroutine cannot be
+// stopped); the pool resumes the shard after this case. CPU time, not wall
+// time, decides the spin case, so machine load cannot produce a verdict.
+func (x *runner) watchdog() {
+	for {
+		time.Sleep(500 * time.Millisecond)
+		m := x.cur.Load()
+		if m == nil {
+			continue
+		}
+		cpu := cpuNow() - time.Duration(x.curCPU.Load())
+		wall := time.Duration(time.Now().UnixNano() - x.curWall.Load())
+		kind := ""
+		switch {
+		case cpu > x.spinLimit:
+			kind = "spin"
+		case wall > 100*time.Second && cpu < 500*time.Millisecond:
+			kind = "deadlock"
+		default:
+			continue
+		}
+		if x.cur.Load() != m {
+			continue
+		}
+		v := plainVerdict(m, 8*time.Second)
+		if !strings.HasPrefix(v, "STILL RUNNING") {
+			// the binary finishes: the stall is an artefact of running thousands of cases in one process
+			// (goroutines abandoned by earlier failing cases); not a verdict. Leave so that the state is fresh.
+			x.w.Count("inprocess-stall-not-reproduced-by-binary", 1)
+			x.w.Abandon()
+		}
+		g := "hang[" + kind + "#" + m.Fam + "/" + cfgHead(m.Cfg) + "]"
+		what := fmt.Sprintf("case not finished after %.1fs of CPU time / %.0fs wall (%s; a normal case takes < 1 ms); reproduce: %s || plain binary: %s", cpu.Seconds(), wall.Seconds(), kind, m.shell(), v)
+		x.w.Violation(g+":"+m.keyTail(), what, map[string]any{"family": m.Fam, "config": m.Cfg, "args": m.Args, "stdin": short(m.Stdin, 2000), "shell": m.shell(), "plain_binary": v})
+		addPoison(m, "hang")
+		x.w.Count("worker-abandoned-after-hang", 1)
+		x.w.Abandon()
+	}
 }
 
 var (
 	iceRe      = regexp.MustCompile(`Internal coding error detected at file (\S+) line (\d+)`)
 	mlrLineRe  = regexp.MustCompile(`(?m)^mlr[: ]`)
-	frameRe    = regexp.MustCompile(`(?m)^\s+(\S+/pkg/\S+\.go|\S+/v6/\S+\.go|\S+\.go):(\d+)`)
 	millerFrRe = regexp.MustCompile(`(?m)^\s+\S*(?:/repo|miller/v6|/wt-[^/]+)/(pkg/\S+\.go):(\d+)`)
 	anyGoFrRe  = regexp.MustCompile(`(?m)^\s+(\S+\.go):(\d+)`)
 )
+
+// The harness binary is built through an overlay whose instrumented copies of
+// some Miller files have shifted line numbers. trueLine maps a line of the
+// overlay copy back to the line with the same text in the tree's own file.
+var (
+	lineMapMu sync.Mutex
+	lineMaps  = map[string]func(int) int{}
+)
+
+func overlayDir() string {
+	exe, err := os.Executable()
+	if err != nil {
+		return ""
+	}
+	return filepath.Join(vf.Root, ".cache", "overlay", strings.TrimPrefix(filepath.Base(exe), "h-"))
+}
+
+// trueLine: rel is like "pkg/input/record_reader_pprint.go".
+func trueLine(rel string, line int) int {
+	lineMapMu.Lock()
+	defer lineMapMu.Unlock()
+	f, ok := lineMaps[rel]
+	if !ok {
+		f = func(l int) int { return l }
+		ob, err1 := os.ReadFile(filepath.Join(overlayDir(), strings.ReplaceAll(rel, "/", "__")))
+		rb, err2 := os.ReadFile(filepath.Join(vf.RepoRoot(), rel))
+		if err1 == nil && err2 == nil {
+			ol := strings.Split(string(ob), "\n")
+			rl := strings.Split(string(rb), "\n")
+			f = func(l int) int {
+				if l < 1 || l > len(ol) {
+					return l
+				}
+				want := strings.Join(strings.Fields(ol[l-1]), "")
+				// the k-th occurrence of this text in the overlay copy is the k-th occurrence in the original
+				k := 0
+				for i := 0; i < l; i++ {
+					if strings.Join(strings.Fields(ol[i]), "") == want {
+						k++
+					}
+				}
+				for i, t := range rl {
+					if strings.Join(strings.Fields(t), "") == want {
+						k--
+						if k == 0 {
+							return i + 1
+						}
+					}
+				}
+				return l
+			}
+		}
+		lineMaps[rel] = f
+	}
+	return f(line)
+}
+
+// relForBase finds the repo-relative path of an overlaid file from its base name (ICE messages carry only that).
+func relForBase(base string) string {
+	m, _ := filepath.Glob(filepath.Join(overlayDir(), "*__"+base))
+	if len(m) == 1 {
+		return strings.ReplaceAll(filepath.Base(m[0]), "__", "/")
+	}
+	return ""
+}
+
+func siteString(rel, line string) string {
+	n := 0
+	fmt.Sscan(line, &n)
+	return fmt.Sprintf("%s:%d", rel, trueLine(rel, n))
+}
 
 // panicSite extracts the first Miller source frame below the panic from a
 // stack trace ("pkg/input/record_reader_pprint.go:582"); falls back to the
@@ -235,12 +415,9 @@ func panicSite(stack string) string {
 	if i := strings.LastIndex(stack, "\npanic("); i >= 0 {
 		stack = stack[i+1:]
 	}
-	if m := millerFrRe.FindStringSubmatch(stack); m != nil && !strings.Contains(m[1], "verifrt") {
-		return m[1] + ":" + m[2]
-	}
 	for _, m := range millerFrRe.FindAllStringSubmatch(stack, -1) {
 		if !strings.Contains(m[1], "verifrt") {
-			return m[1] + ":" + m[2]
+			return siteString(m[1], m[2])
 		}
 	}
 	for _, m := range anyGoFrRe.FindAllStringSubmatch(stack, -1) {
@@ -294,9 +471,42 @@ func (x *runner) run(m *mcase) outcome {
 	}
 	cw := &capWriter{max: max}
 	stdin := m.Stdin
-	r := vf.RunMlr(m.Args, vf.MlrOpts{Stdin: &stdin, Out: cw})
+	if x.spinLimit > 0 {
+		x.curCPU.Store(int64(cpuNow()))
+		x.curWall.Store(time.Now().UnixNano())
+		x.cur.Store(m)
+	}
+	opts := vf.MlrOpts{Stdin: &stdin, Out: cw}
+	if m.Split > 0 && m.Split < len(stdin) {
+		opts.Reader = func() io.ReadCloser {
+			return &chunkReader{parts: [][]byte{[]byte(stdin[:m.Split]), []byte(stdin[m.Split:])}}
+		}
+	}
+	r := vf.RunMlr(m.Args, opts)
+	if x.spinLimit > 0 {
+		x.cur.Store(nil)
+	}
+	if d := mlrval.VerifC18DirtySingleton(); d != "" {
+		// The program overwrote a process-wide literal singleton in place (`t = true; t[1] = 5` makes every later
+		// `true` an array). Not a C18 matter (no crash), recorded as a side finding; restored so that the
+		// following cases of this worker see what a fresh process would.
+		x.w.Count("side-finding:literal-singleton-overwritten:"+d, 1)
+		if x.nSide < 6 {
+			x.nSide++
+			x.w.AddSet("side-finding-singleton-mutators", d+" overwritten by: "+m.shell())
+		}
+		mlrval.VerifC18RestoreSingletons()
+	}
+	if r.Leaked {
+		// goroutines of this run were abandoned (exit or panic in a child goroutine). Give the runnable ones a
+		// harmless run to finish in, so that a late exit of theirs is not attributed to the next case.
+		vf.RunMlr([]string{"-n", "put", "end{}"}, vf.MlrOpts{})
+		x.w.Count("settle-runs-after-abandoned-goroutines", 1)
+		x.nLeaked++
+	}
 	x.w.Eval(1)
 	x.w.Heartbeat()
+	defer x.maybeRecycle()
 	oc := outcome{stdout: cw.buf.String(), stderr: r.Stderr, exit: r.Exit}
 	replay := func() map[string]any {
 		return map[string]any{"family": m.Fam, "config": m.Cfg, "args": m.Args, "stdin": short(m.Stdin, 2000), "stdin_len": len(m.Stdin), "shell": m.shell()}
@@ -310,24 +520,31 @@ func (x *runner) run(m *mcase) outcome {
 		rp["panic"] = r.Panic
 		rp["stack"] = short(r.Stack, 3000)
 		what := fmt.Sprintf("Go panic %q at %s; reproduce: %s", short(r.Panic, 200), site, m.shell())
-		x.confirm(g, m, rp, &what)
-		x.w.Violation(g+":"+m.keyTail(), what, rp)
+		if x.confirm(g, m, rp, &what) {
+			x.w.Violation(g+":"+m.keyTail(), what, rp)
+		}
 	case cw.over:
 		oc.class = ocRunaway
 		g := "runaway-output[" + m.Fam + "/" + cfgHead(m.Cfg) + "]"
 		rp := replay()
 		what := fmt.Sprintf("output exceeded %d bytes on a %d-byte input (endless loop); reproduce: %s", max, len(m.Stdin), m.shell())
-		x.confirm(g, m, rp, &what)
-		x.w.Violation(g+":"+m.keyTail(), what, rp)
+		if x.confirmRunaway(g, m, rp, &what) {
+			x.w.Violation(g+":"+m.keyTail(), what, rp)
+		}
 	case r.Exit != 0:
 		if mm := iceRe.FindStringSubmatch(r.Stderr); mm != nil {
 			oc.class = ocICE
-			g := "internal-coding-error[" + mm[1] + "#" + mm[2] + "]"
+			site := mm[1] + "#" + mm[2]
+			if rel := relForBase(mm[1]); rel != "" {
+				site = strings.ReplaceAll(siteString(rel, mm[2]), ":", "#")
+			}
+			g := "internal-coding-error[" + site + "]"
 			rp := replay()
 			rp["stderr"] = short(r.Stderr, 600)
 			what := fmt.Sprintf("aborts with %q (no `mlr:` error); reproduce: %s", strings.TrimSpace(short(r.Stderr, 160)), m.shell())
-			x.confirm(g, m, rp, &what)
-			x.w.Violation(g+":"+m.keyTail(), what, rp)
+			if x.confirm(g, m, rp, &what) {
+				x.w.Violation(g+":"+m.keyTail(), what, rp)
+			}
 		} else if mlrLineRe.MatchString(r.Stderr) {
 			oc.class = ocMlrErr
 		} else if strings.TrimSpace(r.Stderr) == "" {
@@ -338,7 +555,44 @@ func (x *runner) run(m *mcase) outcome {
 	default:
 		oc.class = ocOK
 	}
+	if traceCases {
+		fmt.Fprintf(vf.RealStderr(), "TRACE %s %s -> %s exit=%d leaked=%v stderr=%q\n", m.Cfg, m.Desc, oc.class, oc.exit, r.Leaked, short(oc.stderr, 120))
+	}
 	return oc
+}
+
+var traceCases = os.Getenv("VERIF_C18_TRACE") != ""
+
+// confirmRunaway: the binary must also print more than the cap (or still be printing after the timeout).
+func (x *runner) confirmRunaway(group string, m *mcase, rp map[string]any, what *string) bool {
+	v := plainVerdict(m, 20*time.Second)
+	x.w.Heartbeat()
+	rp["plain_binary"] = v
+	*what += " || plain binary: " + v
+	if strings.HasPrefix(v, "no-crash") && !strings.Contains(v, "output-bytes>cap") {
+		x.w.Count("inprocess-anomaly-not-reproduced-by-binary", 1)
+		return false
+	}
+	return true
+}
+
+// maybeRecycle: goroutines abandoned by failing cases (and what they hold) pile up over millions of cases. Once
+// the process has grown beyond 1.2 GiB, or has abandoned 20000 runs, the worker reports and leaves; the pool
+// starts a fresh process at the next case. (Runs after the case has been fully evaluated and recorded.)
+func (x *runner) maybeRecycle() {
+	if x.spinLimit == 0 || x.only {
+		return
+	}
+	x.nRuns++
+	if x.nRuns%2048 != 0 {
+		return
+	}
+	var ms runtime.MemStats
+	runtime.ReadMemStats(&ms)
+	if ms.Sys > 1200<<20 || x.nLeaked > 20000 {
+		x.w.Count("worker-recycled", 1)
+		x.w.Abandon()
+	}
 }
 
 func cfgHead(cfg string) string {
@@ -350,29 +604,81 @@ func cfgHead(cfg string) string {
 
 // confirm re-runs a violating case against the plain mlr binary (at most a few
 // times per violation group and worker) and records the binary's verdict.
-func (x *runner) confirm(group string, m *mcase, rp map[string]any, what *string) {
-	if x.confirms[group] >= 2 {
-		return
+// It returns false when the binary contradicts the in-process observation (no
+// crash there): the case is then counted as an in-process anomaly, not reported.
+func (x *runner) confirm(group string, m *mcase, rp map[string]any, what *string) bool {
+	// the first three cases of a group in this worker, then every 50th (each confirmation is an exec of a 30 MB binary)
+	ck := group
+	x.seen[ck]++
+	if x.confirms[ck] >= 3 && x.seen[ck]%50 != 0 {
+		return true
 	}
-	x.confirms[group]++
-	v := plainVerdict(m, 60*time.Second)
+	v := plainVerdict(m, 20*time.Second)
+	x.w.Heartbeat()
+	if strings.HasPrefix(v, "no-crash") {
+		x.w.Count("inprocess-anomaly-not-reproduced-by-binary", 1)
+		x.w.AddSet("inprocess-anomalies", group+" "+m.keyTail())
+		return false
+	}
+	x.confirms[ck]++
 	rp["plain_binary"] = v
 	*what += " || plain binary: " + v
-	x.w.Heartbeat()
+	return true
 }
 
 // plainVerdict runs the case with the uninstrumented binary.
-func plainVerdict(m *mcase, timeout time.Duration) string {
+// procCPU reads the CPU time (user+system, all threads) a live process has used so far.
+func procCPU(pid int) time.Duration {
+	b, err := os.ReadFile(fmt.Sprintf("/proc/%d/stat", pid))
+	if err != nil {
+		return 0
+	}
+	s := string(b)
+	if i := strings.LastIndexByte(s, ')'); i >= 0 {
+		s = s[i+1:]
+	}
+	f := strings.Fields(s)
+	if len(f) < 13 {
+		return 0
+	}
+	var ut, st int64
+	fmt.Sscan(f[11], &ut)
+	fmt.Sscan(f[12], &st)
+	return time.Duration(ut+st) * (time.Second / 100)
+}
+
+// plainVerdict runs the case with the uninstrumented binary. The run is cut
+// off once it has used cpuLimit of CPU time ("STILL RUNNING": that is how a
+// spin shows) or, on a starved machine, after a generous wall time without
+// having had that much CPU ("STARVED": inconclusive). Wall time alone never
+// produces "STILL RUNNING" unless the process uses no CPU at all (deadlock).
+func plainVerdict(m *mcase, cpuLimit time.Duration) string {
 	bin := vf.MlrBin()
 	if bin == "" {
 		return "(no plain binary available)"
 	}
-	cmd := exec.Command(bin, m.Args...)
-	cmd.Stdin = strings.NewReader(m.Stdin)
+	// address-space cap through the shell: a memory blow-up must not take the machine down
+	cmd := exec.Command("/bin/sh", append([]string{"-c", `ulimit -S -v 4194304; exec "$0" "$@"`, bin}, m.Args...)...)
+	if m.Split > 0 && m.Split < len(m.Stdin) {
+		pr, pw, err := os.Pipe()
+		if err != nil {
+			return "(pipe: " + err.Error() + ")"
+		}
+		cmd.Stdin = pr
+		go func() {
+			pw.Write([]byte(m.Stdin[:m.Split]))
+			time.Sleep(300 * time.Millisecond)
+			pw.Write([]byte(m.Stdin[m.Split:]))
+			pw.Close()
+		}()
+		defer pr.Close()
+	} else {
+		cmd.Stdin = strings.NewReader(m.Stdin)
+	}
 	var so, se limitedBuf
 	so.max, se.max = 1<<16, 1<<16
 	cmd.Stdout, cmd.Stderr = &so, &se
-	cmd.Env = append(os.Environ(), "MLRRC=__none__", "GOTRACEBACK=single", "GOMEMLIMIT=6GiB")
+	cmd.Env = append(os.Environ(), "MLRRC=__none__", "GOTRACEBACK=single", "GOMAXPROCS=2")
 	cmd.SysProcAttr = &syscall.SysProcAttr{Setpgid: true}
 	dir, err := os.MkdirTemp("/dev/shm", "verif-c18-cwd-")
 	if err == nil {
@@ -385,20 +691,35 @@ func plainVerdict(m *mcase, timeout time.Duration) string {
 	done := make(chan error, 1)
 	go func() { done <- cmd.Wait() }()
 	var werr error
-	timedOut := false
-	select {
-	case werr = <-done:
-	case <-time.After(timeout):
-		timedOut = true
-		syscall.Kill(-cmd.Process.Pid, syscall.SIGKILL)
-		werr = <-done
+	start := time.Now()
+	wallCap := 20*cpuLimit + 2*time.Minute
+	cut := ""
+	var cpuSeen time.Duration
+loop:
+	for {
+		select {
+		case werr = <-done:
+			break loop
+		case <-time.After(200 * time.Millisecond):
+			cpuSeen = procCPU(cmd.Process.Pid)
+			wall := time.Since(start)
+			switch {
+			case cpuSeen > cpuLimit:
+				cut = fmt.Sprintf("STILL RUNNING after %.1fs of CPU time (%.0fs wall, %d bytes of output so far)", cpuSeen.Seconds(), wall.Seconds(), so.n)
+			case wall > wallCap && cpuSeen < 300*time.Millisecond:
+				cut = fmt.Sprintf("STILL RUNNING after %.0fs wall with %.2fs of CPU time used: blocked (%d bytes of output so far)", wall.Seconds(), cpuSeen.Seconds(), so.n)
+			case wall > wallCap:
+				cut = fmt.Sprintf("STARVED (only %.1fs of CPU time in %.0fs wall): inconclusive", cpuSeen.Seconds(), wall.Seconds())
+			}
+			if cut != "" {
+				syscall.Kill(-cmd.Process.Pid, syscall.SIGKILL)
+				werr = <-done
+				break loop
+			}
+		}
 	}
-	cpu := time.Duration(0)
-	if cmd.ProcessState != nil {
-		cpu = cmd.ProcessState.UserTime() + cmd.ProcessState.SystemTime()
-	}
-	if timedOut {
-		return fmt.Sprintf("STILL RUNNING after %s (cpu %.1fs, %d bytes of output so far)", timeout, cpu.Seconds(), so.n)
+	if cut != "" {
+		return cut
 	}
 	code := 0
 	if ee, ok := werr.(*exec.ExitError); ok {
@@ -416,7 +737,11 @@ func plainVerdict(m *mcase, timeout time.Duration) string {
 	case strings.Contains(st, "Internal coding error"):
 		tag = "INTERNAL-CODING-ERROR"
 	}
-	return fmt.Sprintf("%s exit=%d stderr=%q", tag, code, short(firstLines(st, 3), 300))
+	extra := ""
+	if so.n > 4<<20 {
+		extra = fmt.Sprintf(" output-bytes>cap (%d)", so.n)
+	}
+	return fmt.Sprintf("%s exit=%d%s stderr=%q", tag, code, extra, short(firstLines(st, 3), 300))
 }
 
 func firstLines(s string, n int) string {
@@ -443,6 +768,124 @@ func (b *limitedBuf) Write(p []byte) (int, error) {
 		b.Buffer.Write(p[:k])
 	}
 	return len(p), nil
+}
+
+// ---------------------------------------------------------------- poison list
+
+// A case that kills its worker (fatal error, hang) costs seconds instead of
+// microseconds. One defect typically poisons hundreds of neighbouring cases
+// (leftpad(*, maxint, *)). The poison list is shared between the orchestrator
+// and the workers through a file: once a (family, config, kind) has two
+// worker-killing cases, further cases that agree with all of them in the
+// argument positions they have in common are skipped (counted, and the run is
+// marked not exhaustive). Nothing is ever skipped before it has been observed
+// to kill a worker at least twice.
+type poisonDB struct {
+	Entries map[string][][]string `json:"entries"` // fam|cfg|kind -> tuples
+}
+
+func poisonPath() string { return os.Getenv("VERIF_C18_POISON") }
+
+func poisonKey(m *mcase, kind string) string { return m.Fam + "|" + m.Cfg + "|" + kind }
+
+func addPoison(m *mcase, kind string) {
+	p := poisonPath()
+	if p == "" {
+		return
+	}
+	f, err := os.OpenFile(p, os.O_RDWR|os.O_CREATE, 0644)
+	if err != nil {
+		return
+	}
+	defer f.Close()
+	syscall.Flock(int(f.Fd()), syscall.LOCK_EX)
+	defer syscall.Flock(int(f.Fd()), syscall.LOCK_UN)
+	var db poisonDB
+	b, _ := os.ReadFile(p)
+	json.Unmarshal(b, &db)
+	if db.Entries == nil {
+		db.Entries = map[string][][]string{}
+	}
+	t := m.Tuple
+	if t == nil {
+		t = []string{m.Desc}
+	}
+	k := poisonKey(m, kind)
+	if len(db.Entries[k]) < 64 {
+		db.Entries[k] = append(db.Entries[k], t)
+	}
+	nb, _ := json.Marshal(&db)
+	f.Truncate(0)
+	f.WriteAt(nb, 0)
+}
+
+// poisoned reports whether the case is to be skipped under the rule above.
+func (x *runner) poisoned(m *mcase) bool {
+	p := poisonPath()
+	if p == "" {
+		return false
+	}
+	x.poisonTick++
+	if x.poison == nil || x.poisonTick%64 == 0 {
+		st, err := os.Stat(p)
+		sig := ""
+		if err == nil {
+			sig = fmt.Sprint(st.Size(), st.ModTime().UnixNano())
+		}
+		if x.poison == nil || sig != x.poisonStat {
+			x.poisonStat = sig
+			db := &poisonDB{}
+			if f, err := os.Open(p); err == nil {
+				syscall.Flock(int(f.Fd()), syscall.LOCK_SH)
+				b, _ := os.ReadFile(p)
+				syscall.Flock(int(f.Fd()), syscall.LOCK_UN)
+				f.Close()
+				json.Unmarshal(b, db)
+			}
+			x.poison = db
+		}
+	}
+	if len(x.poison.Entries) == 0 {
+		return false
+	}
+	for _, kind := range []string{"hang", "fatal", "died"} {
+		l := x.poison.Entries[poisonKey(m, kind)]
+		if len(l) < 2 {
+			continue
+		}
+		skip := false
+		if m.Tuple == nil || len(l[0]) != len(m.Tuple) {
+			skip = len(l) >= 4
+		} else {
+			common := 0
+			match := true
+			for i := range m.Tuple {
+				same := true
+				for _, t := range l[1:] {
+					if t[i] != l[0][i] {
+						same = false
+						break
+					}
+				}
+				if same {
+					common++
+					if m.Tuple[i] != l[0][i] {
+						match = false
+					}
+				}
+			}
+			skip = (common > 0 && match) || (common == 0 && len(l) >= 8)
+		}
+		if skip {
+			x.w.Count("skipped-poisoned:"+m.Fam+":"+m.Cfg, 1)
+			if !x.warned[m.Cfg+kind] {
+				x.warned[m.Cfg+kind] = true
+				x.w.Inexhaustive(fmt.Sprintf("%s %s: cases agreeing with %d earlier worker-killing (%s) cases were skipped, e.g. %v", m.Fam, m.Cfg, len(l), kind, l[0]))
+			}
+			return true
+		}
+	}
+	return false
 }
 
 // ---------------------------------------------------------------- enumeration helpers
@@ -480,15 +923,13 @@ func nth(k int, n uint64, buf []int) []int {
 
 // ---------------------------------------------------------------- orchestrator
 
-type crashLabel struct {
-	mcase
-}
-
 func run(c *vf.Ctx) {
 	c.Rule = "every enumerated case is a distinct (configuration, input) pair by construction; a case is non-trivial when Miller got past option parsing and either emitted at least one record/printed value or rejected the input/program/arguments with a diagnostic (i.e. anything but an empty success); distinct_nontrivial counts those"
 	c.Assume("in-process execution (vf.RunMlr: climain.ParseCommandLine + stream.Stream, library os.Exit trapped) stands for the binary; every in-process violation is re-run against the plain mlr binary and that verdict is attached to the violation text")
 	c.Assume("a non-zero exit counts as the property's error path when stderr has a line starting with `mlr:`/`mlr `; `Internal coding error detected` aborts carry no `mlr:` line and are reported (group internal-coding-error[file:line], lower severity); other non-zero exits whose diagnostics lack the prefix are counted in evidence (nonzero-exit-without-mlr-prefix), not flagged")
-	c.Assume("hangs are decided by the pool: no case completing for 120 s (3 isolated re-runs must all stall) or output beyond 4 MiB for inputs of a few bytes; slowness alone is never a verdict")
+	c.Assume("hangs: a case of an enumeration family (normal duration < 1 ms) that has used 6 s of CPU time without finishing, or has been blocked for 100 s using no CPU, is re-run against the plain binary, which must still be running after 8 s of CPU time; the pool's 120 s stall detector (3 isolated re-runs) is the backstop; output beyond 4 MiB for an input of a few bytes counts as an endless loop when the binary does the same. Wall-clock slowness alone is never a verdict; ladders stop ascending when a rung exceeds the tier's CPU/allocation budget (recorded as not exhaustive)")
+	c.Assume("a case that kills its worker (fatal error, hang) is reported; after two such cases of one function/configuration, further cases that agree with them in the argument positions they share are skipped and counted (poison rule), so that one defect cannot cost hours")
+	c.Assume("goroutines abandoned by a failing in-process run may still execute during the next case; a settle run after each such case and the plain-binary confirmation of every violation class guard against misattribution; a crash masked by such interference would be missed")
 	c.Assume("functions excluded (host facts, shell-outs, clocks, unseeded randomness): system exec os hostname version urand urand32 urandint urandrange urandelement systime systimeint sysntime uptime upntime; statements with output redirection are excluded (they create files)")
 	c.Assume("the deliberate test token %%%panic%%% of the DSL grammar (panics by design when evaluated) is not part of the token alphabets")
 	c.Assume("reader formats asv/usv (csvlite with other separators), gen (no input bytes) and the --prepipe family (shell-outs) are not enumerated")
@@ -505,33 +946,74 @@ func run(c *vf.Ctx) {
 		} else if strings.HasPrefix(kind, "exit:") {
 			cause = "worker-died:" + strings.ReplaceAll(strings.TrimPrefix(kind, "exit:"), " ", "-")
 		}
-		cause = strings.NewReplacer(":", "#", "(", "", ")", "").Replace(cause)
-		c.Exhaustive = false
-		c.Count("blocks_cut_short_by_worker_death", 1)
+		c.Count("worker_deaths_attributed", 1)
 		if json.Unmarshal([]byte(label), &m) == nil && m.Fam == "ladder" && len(m.Args) == 0 {
-			regenLadder(&m)
+			defer regenLadder(&m)()
 		}
+		clean := func(s string) string { return strings.NewReplacer(":", "#", "(", "", ")", "", " ", "-").Replace(s) }
 		if json.Unmarshal([]byte(label), &mcase{}) != nil {
-			return fmt.Sprintf("crash[%s]:99999:unlabelled:case-index-%d", cause, idx), fmt.Sprintf("worker %s at case %d (no label): %s", kind, idx, short(tail, 400))
+			return fmt.Sprintf("crash[%s]:99999:unlabelled:case-index-%d", clean(cause), idx), fmt.Sprintf("worker %s at case %d (no label): %s", kind, idx, short(tail, 400))
 		}
-		to := 60 * time.Second
+		to := 30 * time.Second
+		pk := "died"
 		if kind == "hang" {
-			to = 150 * time.Second
+			pk = "hang"
+		} else if kind == "fatal" {
+			pk = "fatal"
 		}
+		addPoison(&m, pk)
 		v := plainVerdict(&m, to)
 		what := fmt.Sprintf("worker %s (%s) while running: %s || plain binary: %s", kind, cause, m.shell(), v)
-		return "crash[" + cause + "]:" + m.keyTail(), what
+		// name the group after what the plain binary does (an address-space cap can turn a stack overflow into an
+		// out-of-memory inside the worker)
+		grp := "crash[" + clean(cause) + "]"
+		switch {
+		case strings.HasPrefix(v, "FATAL"):
+			if i := strings.Index(v, "fatal error: "); i >= 0 {
+				grp = "crash[fatal#" + clean(strings.Trim(firstLines(strings.ReplaceAll(v[i+13:], `\n`, "\n"), 1), `" `)) + "]"
+			}
+		case strings.HasPrefix(v, "PANIC"):
+			grp = "crash[panic-in-binary-too#" + clean(cause) + "]"
+		case strings.HasPrefix(v, "STILL RUNNING"):
+			grp = "crash[hang]"
+		case strings.HasPrefix(v, "no-crash"), strings.HasPrefix(v, "INTERNAL"):
+			grp = "crash-inprocess-only[" + clean(cause) + "]"
+		case strings.HasPrefix(v, "STARVED"), strings.HasPrefix(v, "("):
+			grp = "crash-unconfirmed[" + clean(cause) + "]"
+		}
+		return grp + ":" + m.keyTail(), what
 	}
 
-	t0 := time.Now()
+	pf, _ := os.CreateTemp("/dev/shm", "verif-c18-poison-")
+	if pf != nil {
+		pf.Close()
+		os.Setenv("VERIF_C18_POISON", pf.Name())
+		defer func() {
+			os.Remove(pf.Name())
+			if l, _ := filepath.Glob(pf.Name() + ".rung.*"); l != nil {
+				for _, f := range l {
+					os.Remove(f)
+				}
+			}
+		}()
+	}
+	var smu sync.Mutex
+	walls := map[string]string{}
 	stage := func(name string, spec vf.PoolSpec) *vf.PoolResult {
 		spec.CrashKey = crash
+		if spec.Env == nil {
+			// one P per worker: a Miller run is a handful of goroutines handing batches to each other, and 16
+			// workers x 16 Ps spend most of their time in futex wake-ups
+			spec.Env = []string{"GOMAXPROCS=1"}
+		}
 		if spec.StallSecs == 0 {
 			spec.StallSecs = 120
 		}
 		t := time.Now()
 		r := c.RunPool(spec)
-		c.Extra["wall_s_"+name] = fmt.Sprintf("%.1f", time.Since(t).Seconds())
+		smu.Lock()
+		walls["wall_s_"+name] = fmt.Sprintf("%.1f", time.Since(t).Seconds())
+		smu.Unlock()
 		return r
 	}
 	only := os.Getenv("VERIF_C18_ONLY") // debugging aid: run a single stage
@@ -547,24 +1029,39 @@ func run(c *vf.Ctx) {
 			}
 		}
 	}
-	if want("ladders") {
-		merge(stage("ladders", vf.PoolSpec{Worker: "ladders", Shards: 160}))
+	// The stages run side by side with a static split of the 16 processes: the slow tails of one stage (a
+	// poisoned function being cut off, a deep ladder) overlap with the bulk work of the others.
+	var wg sync.WaitGroup
+	launch := func(name string, spec vf.PoolSpec) {
+		if !want(name) {
+			return
+		}
+		wg.Add(1)
+		go func() {
+			defer wg.Done()
+			r := stage(name, spec)
+			smu.Lock()
+			merge(r)
+			smu.Unlock()
+		}()
 	}
-	if want("funcs") {
-		merge(stage("funcs", vf.PoolSpec{Worker: "funcs", Shards: 128}))
+	procs := map[string]int{"ladders": 4, "funcs": 6, "readers": 5, "docs": 2, "verbs": 2, "dsl": 2}
+	if !c.Quick() {
+		// the bulk is in the readers and the ladders' top rungs
+		procs = map[string]int{"ladders": 5, "funcs": 5, "readers": 7, "docs": 1, "verbs": 1, "dsl": 2}
 	}
-	if want("readers") {
-		merge(stage("readers", vf.PoolSpec{Worker: "readers", Shards: 128}))
+	launch("ladders", vf.PoolSpec{Worker: "ladders", Shards: 256, Procs: procs["ladders"], Env: []string{"GOMAXPROCS=4", "GOMEMLIMIT=3GiB"}})
+	launch("funcs", vf.PoolSpec{Worker: "funcs", Shards: 192, Procs: procs["funcs"]})
+	launch("readers", vf.PoolSpec{Worker: "readers", Shards: 128, Procs: procs["readers"]})
+	launch("docs", vf.PoolSpec{Worker: "docs", Shards: 32, Procs: procs["docs"]})
+	launch("verbs", vf.PoolSpec{Worker: "verbs", Shards: 64, Procs: procs["verbs"]})
+	launch("dsl", vf.PoolSpec{Worker: "dsl", Shards: 64, Procs: procs["dsl"]})
+	wg.Wait()
+	for k, v := range walls {
+		c.Extra[k] = v
 	}
-	if want("docs") {
-		merge(stage("docs", vf.PoolSpec{Worker: "docs", Shards: 64}))
-	}
-	if want("dsl") {
-		merge(stage("dsl", vf.PoolSpec{Worker: "dsl", Shards: 128}))
-	}
-	_ = t0
 
-	for _, name := range []string{"reader-outcomes", "func-outcomes", "dsl-outcomes", "ladder-outcomes", "ladder-reached", "bare-error-texts"} {
+	for _, name := range []string{"side-finding-singleton-mutators", "inprocess-anomalies", "reader-outcomes", "verb-outcomes", "func-outcomes", "dsl-outcomes", "ladder-outcomes", "ladder-reached", "bare-error-texts"} {
 		if m := sets[name]; m != nil {
 			var l []string
 			for s := range m {
@@ -588,17 +1085,38 @@ func run(c *vf.Ctx) {
 
 // reportVacuity: a symbol / function / witness that was never exercised is a harness bug.
 func reportVacuity(c *vf.Ctx, sets map[string]map[string]bool) {
+	if os.Getenv("VERIF_C18_FUNC") != "" || os.Getenv("VERIF_C18_ONLY") != "" {
+		return
+	}
 	for k, v := range c.Counters {
 		if v == 0 && (strings.HasPrefix(k, "sym:") || strings.HasPrefix(k, "tok:") || strings.HasPrefix(k, "witness:")) {
 			c.Broken("vacuity: %s was never exercised", k)
 		}
 	}
-	if m := sets["fn-never-evaluated"]; len(m) > 0 {
-		var l []string
-		for s := range m {
-			l = append(l, s)
+	// accepted (function, arity) pairs none of whose tuples got past parsing/arity checking: a rendering bug in the harness
+	var never []string
+	for k, v := range c.Counters {
+		if strings.HasPrefix(k, "fn-evaluated:") && v == 0 {
+			never = append(never, strings.TrimPrefix(k, "fn-evaluated:"))
 		}
-		sort.Strings(l)
-		c.Extra["functions_never_past_build"] = l
+	}
+	sort.Strings(never)
+	if len(never) > 0 {
+		c.Extra["accepted_function_arities_never_evaluated"] = never
+	}
+	_ = sets
+}
+
+// seqWorker is a debugging aid (not part of the check): runs the put
+// expressions given as JSON in $VERIF_C18_SEQ one after the other in this
+// process and prints the outcome of each, to study cross-case effects.
+func seqWorker(w *vf.Worker) {
+	x := newRunner(w, 4, 0)
+	var progs []string
+	json.Unmarshal([]byte(os.Getenv("VERIF_C18_SEQ")), &progs)
+	for i, p := range progs {
+		m := &mcase{Fam: "seq", Cfg: "seq", Size: i, Desc: p, Args: []string{"--ojson", "put", p}, Stdin: "x=3,y=abc,z=\n"}
+		oc := x.run(m)
+		fmt.Fprintf(vf.RealStderr(), "[%d] %s -> %s exit=%d stderr=%q\n", i, p, oc.class, oc.exit, short(oc.stderr, 200))
 	}
 }
